@@ -21,7 +21,7 @@ EXPLANATION = ('The stacked cache is explored with the write-side / read-side dy
                'only Err exits, one of kind Unsupported, with no insert, and a miss is served from an anonymous temp file; (R13.5) the '
                'promoted copy is identical: its source handle is at offset 0 on every path to the copy and its destination is a '
                'file no one else wrote (= R01.4/R01.5).')
-FLOORS = {'R13.1': 5, 'R13.2': 2, 'R13.3': 9, 'R13.4': 5, 'R13.5': 2}
+FLOORS = {'R13.1': 5, 'R13.2': 2, 'R13.3': 9, 'R13.4': 5, 'R13.5': 2, 'R13.6': 2}
 
 
 def entry(ctx, name):
@@ -298,6 +298,14 @@ def r13_5(ctx):
     return out
 
 
+def r13_6(ctx):
+    """"a miss stores the newly populated value and returns it": the handle returned on the miss path was opened on the
+    private file before it was handed to the write cache; the re-read after put may replace it but its miss or failure
+    never turns the call into an error (= row #12 of R05.t)."""
+    from rules import c05
+    return [inst('R13.6', i['key'].split('|', 1)[1], i['ok'], i['detail'], path=i.get('path') or []) for i in c05.r05_t(ctx) if '#12' in i['key']]
+
+
 def run(ctx):
     from runner import collect
-    return collect(ctx, r13_1, r13_2, r13_3, r13_4, r13_5)
+    return collect(ctx, r13_1, r13_2, r13_3, r13_4, r13_5, r13_6)
